@@ -97,8 +97,9 @@ type VC struct {
 	fn       *ssa.Function
 	spec     *FuncSpec
 	key      string
-	sendOrd  int         // ordinal of channel sends (site anchors 'at send chan#n')
-	closePts [][3]string // (allocTop, reach, epoch) of the heap-closure points emitted so far (closeAll)
+	sendOrd  int             // ordinal of channel sends (site anchors 'at send chan#n')
+	covered  map[string]bool // reachability covers already emitted (position|reach)
+	closePts [][3]string     // (allocTop, reach, epoch) of the heap-closure points emitted so far (closeAll)
 
 	cmds   []string
 	decl   map[string]string // symbol -> sort (declared)
@@ -293,6 +294,24 @@ func (vc *VC) oblige(st *State, name, kind, goal, text string, props []string) *
 	// later obligations may use it
 	vc.assert(o.Goal)
 	return o
+}
+
+// coverOnce adds a reachability cover for the state unless one with the same reachability term at the same position in
+// the command stream exists already (several site assertions at one anchor share a state).
+func (vc *VC) coverOnce(st *State, name string) {
+	k := fmt.Sprintf("%d|%s", len(vc.cmds), st.reach)
+	if vc.covered == nil {
+		vc.covered = map[string]bool{}
+	}
+	if vc.covered[k] || st.reach == "true" {
+		return
+	}
+	vc.covered[k] = true
+	vc.nameCount["cover:"+name]++
+	if n := vc.nameCount["cover:"+name]; n > 1 {
+		name = fmt.Sprintf("%s~%d", name, n)
+	}
+	vc.cover(st, name)
 }
 
 func (vc *VC) cover(st *State, name string) {
